@@ -89,14 +89,34 @@ def collect_paths(n, pre=()):
             out += collect_paths(c, pre + (i,))
     return out
 
-def fill(rng, n, paths, tops, p_bad, here=()):
+def _lists_of(n, pre=()):
+    out = []
+    if isinstance(n, Hole):
+        return out
+    if 'q' in n:
+        out.append((pre, n))
+        for i, c in enumerate(n['q']):
+            out += _lists_of(c, pre + (i,))
+    elif 'm' in n:
+        for k, c in n['m']:
+            out += _lists_of(c, pre + (sc_py(k),))
+    return out
+
+def fill(rng, n, paths, tops, p_bad, here=(), paths_src=None):
     if isinstance(n, Hole):
         if n.kind == 'xref':
             cands = [p for p in paths if p and p != here and here[:len(p)] != p]
             if cands and rng.random() >= p_bad:
                 tgt = rng.choice(cands)
             else:
-                tgt = rng.choice([here, here[:1], (rng.choice(TOP), 'zz'), ('nowhere',)] + (cands[:2]))
+                # dangling references: unknown names, and positions outside a list that exists (past the end, or counted from the
+                # end beyond its start: 'a[5]', 'a[-3]' for a two-element list; seeded change S5-C09)
+                lists = [(p, len(nd['q'])) for p, nd in _lists_of(paths_src) ] if paths_src is not None else []
+                off = []
+                if lists:
+                    lp, ln = rng.choice(lists)
+                    off = [lp + (ln + rng.choice([0, 1, 3]),), lp + (-ln - rng.choice([1, 2]),)]
+                tgt = rng.choice([here, here[:1], (rng.choice(TOP), 'zz'), ('nowhere',)] + (cands[:2]) + off + off)
                 if not tgt: tgt = ('nowhere',)
             return Stext(pstr(tgt), 'xref', kw=n.kw)
         cands = [t for t in tops if t != (here[0] if here else None)]
@@ -104,9 +124,9 @@ def fill(rng, n, paths, tops, p_bad, here=()):
                  for _ in range(rng.choice([0, 1, 2, 3]))] if cands else []
         return Stext('T(' + ', '.join(str(x) for x in names) + ')', 'eval', kw=n.kw)
     if 'm' in n:
-        n['m'] = [[k, fill(rng, c, paths, tops, p_bad, here + (sc_py(k),))] for k, c in n['m']]
+        n['m'] = [[k, fill(rng, c, paths, tops, p_bad, here + (sc_py(k),), paths_src)] for k, c in n['m']]
     elif 'q' in n:
-        n['q'] = [fill(rng, c, paths, tops, p_bad, here + (i,)) for i, c in enumerate(n['q'])]
+        n['q'] = [fill(rng, c, paths, tops, p_bad, here + (i,), paths_src) for i, c in enumerate(n['q'])]
     return n
 
 def gen_dyn_doc(rng, depth=3, p_unsafe=0.06, p_bad=0.1, keys=None, known=None):
@@ -115,7 +135,7 @@ def gen_dyn_doc(rng, depth=3, p_unsafe=0.06, p_bad=0.1, keys=None, known=None):
     doc = M([(k, gen_val(rng, depth, p_unsafe, p_bad)) for k in keys], kw=kw)
     paths = collect_paths(doc) + list(known or [])
     tops = sorted(set([p[0] for p in paths if p and isinstance(p[0], str)]))
-    return fill(rng, doc, paths, tops, p_bad)
+    return fill(rng, doc, paths, tops, p_bad, paths_src=doc)
 
 def gen_dyn_case(rng, nmax=3, depth=3, p_unsafe=0.06, p_bad=0.1, p_unsafe_src=0.12):
     n = rng.choice([1, 1, 2, 2, 3][:nmax + 2])
